@@ -1,4 +1,5 @@
 pub mod deliver;
+pub mod engine;
 pub mod gen;
 pub mod quiesce;
 pub mod reply;
